@@ -97,3 +97,37 @@ Theorem C08_reduction_bound_reported_exactly : forall rec tern api maxred wv wr 
   (Z.of_nat (total_reds tern m n M) <= maxred -> nred = Z.of_nat (total_reds tern m n M)).
 Proof. exact judge_sp_limited_sound. Qed.
 Print Assumptions C08_reduction_bound_reported_exactly.
+
+(* ---------- the tools' verdict lines and violator files (CliModel.judge_cliverdict / judge_clisub; also used for
+   cmr-tu, cmr-regular, cmr-graphic, cmr-balanced, cmr-ctu, cmr-k-ary) ---------- *)
+From Coq Require Import String.
+From Cmr Require TextModel CliModel CliProofs.
+Theorem C08_tool_verdict_judge_sound : forall rec tool variant infmt inb rc txt rest m n M name expected,
+  CliProofs.cliverdict_input rec = Some ((tool, variant, infmt, inb, rc, txt), rest) ->
+  CliModel.judge_cliverdict rec = 0 ->
+  TextModel.parse infmt 1 inb = TextModel.TOk m n M ->
+  CliModel.verdict_spec tool variant m n M = Some (name, expected) ->
+  rc = 0 /\
+  CliModel.contains (List.app (CliModel.zs "Matrix IS "%string) (CliModel.zs name)) txt = expected /\
+  CliModel.contains (List.app (CliModel.zs "NOT "%string) (CliModel.zs name)) txt = negb expected.
+Proof. exact CliProofs.judge_cliverdict_sound. Qed.
+Print Assumptions C08_tool_verdict_judge_sound.
+
+Theorem C08_tool_violator_file_judge_sound : forall rec tool variant infmt inb rc hasout outb rest m n M name has_property,
+  CliProofs.clisub_input rec = Some ((tool, variant, infmt, inb, rc, hasout, outb), rest) ->
+  CliModel.judge_clisub rec = 0 ->
+  TextModel.parse infmt 1 inb = TextModel.TOk m n M ->
+  CliModel.verdict_spec (if tool =? 14 then 4 else tool) variant m n M = Some (name, has_property) ->
+  rc = 0 /\
+  (tool = 0 -> has_property = false ->
+     exists rs cs, hasout = true /\ CliModel.parse_submat_file outb = Some (m, n, rs, cs) /\
+                   check_min_violator m n M rs cs = true) /\
+  (tool = 4 -> has_property = false ->
+     exists rs cs, hasout = true /\ CliModel.parse_submat_file outb = Some (m, n, rs, cs) /\
+                   check_sp_violator (variant =? 0) m n M rs cs = true) /\
+  (tool = 5 -> has_property = false ->
+     exists rs cs, hasout = true /\ CliModel.parse_submat_file outb = Some (m, n, rs, cs) /\
+                   check_unbalanced m n M rs cs = true) /\
+  (tool <> 14 -> has_property = true -> hasout = false).
+Proof. exact CliProofs.judge_clisub_sound. Qed.
+Print Assumptions C08_tool_violator_file_judge_sound.
